@@ -791,7 +791,7 @@ def run_parameters(ctx, run, prop, rp, tis, cov_model):
                     ctx.brk("correspondence", f"{run.label}: outcome of {par.id} at index {ti}: get_outcomes returned {u_out!r}, model {float(m_out)!r}", replay=rp1)
         if agree:
             # the direct oracle of C13 on a sample of targeted points (cheap, independent of the model)
-            if targeted_now and prop == "C13" and not info.agg:
+            if targeted_now and not info.agg:  # C13 "set exactly"; C06 "replaced by the program outcome while programs are active and target it"
                 want, err = direct_oracle_c13(run, info, ti, aux)
                 if err is None and want is not None and math.isfinite(want) and not core.close(fr(want), impl, scale=scale, rtol=1e-9):
                     if stale_popsize_case(run, info, ti):
